@@ -553,6 +553,9 @@ func (w *W) runPath(job []decision, fn *ssa.Function, wantSample bool) (status, 
 	w.replaced = nil
 	w.inconclusive = ""
 	w.curSite = ""
+	w.traced = nil
+	w.traceEvents = nil
+	w.inMapSet = false
 	w.stats.Paths++
 	defer func() {
 		r := recover()
